@@ -148,6 +148,8 @@ pub struct ProcSpec {
     pub chunk: usize,
     #[serde(default)]
     pub crash_at: Option<u32>,
+    #[serde(default)]
+    pub capture_reads: bool,
 }
 
 #[derive(Clone, Debug, PartialEq, serde::Serialize)]
@@ -185,6 +187,8 @@ pub struct ProcResult<T> {
     pub stderr: Vec<u8>,
     pub syscalls: u32,
     pub getrandom_calls: u32,
+    /// (normalised path '#' fd, bytes read) for every opened sandbox file, if capture was on
+    pub reads: Vec<(String, Vec<u8>)>,
 }
 
 pub const WATCHDOG: Duration = Duration::from_secs(60);
@@ -210,6 +214,7 @@ pub fn run_process<T: Send + 'static>(
     ctx.plan = spec.plan.clone();
     ctx.chunk = spec.chunk;
     ctx.crash_at = spec.crash_at;
+    ctx.capture_reads = spec.capture_reads;
     let gate_for_exit = gate.clone();
     if let Some((g, pid)) = gate {
         ctx.gate = Some(g);
@@ -249,6 +254,7 @@ pub fn run_process<T: Send + 'static>(
                 fired: ctx.fired,
                 stdout: ctx.stdout,
                 stderr: ctx.stderr,
+                reads: ctx.reads,
             }
         }
         Err(_) => ProcResult {
@@ -260,6 +266,7 @@ pub fn run_process<T: Send + 'static>(
             stderr: Vec::new(),
             syscalls: 0,
             getrandom_calls: 0,
+            reads: Vec::new(),
         },
     };
     if let Some((g, pid)) = gate_for_exit {
